@@ -522,6 +522,12 @@ def check_twoiter_status(ctx):
                   "`return %s` can return OK and hide the latched error; facts %s" % (k2, fmt_atoms(atoms)))
     ctx.check(latched >= 1, "T4-iterator-status-read", "twoiter_status:latched", f.name, f.loc,
               "otherwise the latched status is returned", "the latched status is no longer returned")
+    # who may replace the data iterator: only the function that saves the outgoing iterator's status first
+    who = sorted({f2.name for f2 in ctx.P.all_functions if f2.file == "src/table/two_level_iterator.c"
+                  for b, i, e in f2.events("call") if is_call(e, "ldb_wrapiter_set") and argkey(e, 0) == "&iter->data_iter"})
+    ctx.check(who == ["ldb_twoiter_set_data_iter"], "T5-twoiter-replace", "who-may-replace", f.name, f.loc,
+              "the data iterator is replaced only by ldb_twoiter_set_data_iter (which keeps the outgoing iterator's error)",
+              "the data iterator is replaced in %s" % who)
     st = sorted(argkey(e, 0) for b, i, e in f.events("call") if is_call(e, "ldb_wrapiter_status"))
     ctx.check(st == ["&iter->data_iter", "&iter->index_iter"], "T4-iterator-status-read", "twoiter_status:children", f.name, f.loc,
               "both children are asked", "children asked: %s" % st)
